@@ -390,7 +390,7 @@ Definition bind {A B : Type} (r : res A) (f : A -> state -> res B) : res B :=
   | RUnsup w s => RUnsup w s
   end.
 
-Notation "'do*' x , s <- e ; f" := (bind e (fun x s => f))
+Local Notation "'do*' x , s <- e ; f" := (bind e (fun x s => f))
   (at level 200, x name, s name, e at level 100, f at level 200).
 
 Definition err {A : Type} (msg : string) (st : state) : res A := RErr (VStr msg) st.
